@@ -90,3 +90,12 @@ Print Assumptions C01_gauss_loss_is_phase_space.
 Print Assumptions C01_gauss_loss_means.
 Print Assumptions C01_gauss_thermal_loss_is_phase_space.
 Print Assumptions C01_gauss_init_thermal_is_phase_space.
+
+(* The read-out used in every statement above is what the code computes: GaussianModes.scovmatxp / smeanxp, regenerated
+   from gaussiancircuit.py on every run (Gen/GaussMat.v), equal rcov / rmean entry by entry — for every scalar type,
+   every state, every register size (no algebraic law is needed). *)
+From SFV Require Import Base.MatOps Gen.GaussMat C01.GaussReadout.
+Theorem C01_gauss_readout_is_generated : forall (K : Type) (N : Num K) (s : st K),
+  (forall q1 q2 a b, scovmatxp N s q1 q2 a b = rcov N s q1 q2 a b) /\ (forall q a, smeanxp N s q a = rmean N s q a).
+Proof. intros K N s. split; [exact (scovmatxp_is_rcov N s)|exact (smeanxp_is_rmean N s)]. Qed.
+Print Assumptions C01_gauss_readout_is_generated.
